@@ -378,3 +378,48 @@ func init() {
 		}},
 	)
 }
+
+// ---- the connection worker closes the connection when serveConn returns ----
+
+// serveThenClose: in TCP.Start there is a function literal whose body is
+// exactly `t.serveConn(conn); closeFn()`.
+func serveThenClose() bool {
+	p := loadPkg("internal/transport")
+	fd := p.Func("TCP", "Start")
+	found := false
+	ast.Inspect(fd.Body, func(n ast.Node) bool {
+		fl, ok := n.(*ast.FuncLit)
+		if !ok || len(fl.Body.List) != 2 {
+			return true
+		}
+		call := func(s ast.Stmt) string {
+			es, ok := s.(*ast.ExprStmt)
+			if !ok {
+				return ""
+			}
+			c, ok := es.X.(*ast.CallExpr)
+			if !ok {
+				return ""
+			}
+			switch f := c.Fun.(type) {
+			case *ast.SelectorExpr:
+				return f.Sel.Name
+			case *ast.Ident:
+				return f.Name
+			}
+			return ""
+		}
+		if call(fl.Body.List[0]) == "serveConn" && call(fl.Body.List[1]) == "closeFn" {
+			found = true
+		}
+		return true
+	})
+	return found
+}
+
+func init() {
+	u := units[len(units)-1]
+	u.Facts = append(u.Facts, Fact{Name: "serve_conn_then_close", Gen: func() string {
+		return defBool("serve_conn_then_close", serveThenClose())
+	}})
+}
